@@ -79,12 +79,26 @@ def sh(cmd, cwd=None, timeout=3600):
 
 
 def translate():
-    """Regenerate Cpl/Gen/*.lean from /repo's current source. Returns (ok, message)."""
-    tr = os.path.join(VERIF, "tools", "translate.py")
-    if not os.path.exists(tr):
-        return True, "no translator"
-    rc, out = sh([sys.executable, tr, "--repo", REPO, "--out", os.path.join(LEAN, "Cpl", "Gen")])
-    return rc == 0, out.strip()
+    """Regenerate Cpl/Gen/*.lean from /repo's current source (table literals + decision-logic functions).
+    Returns (ok, message)."""
+    msgs = []
+    ok = True
+    for tool in ("translate.py", "py2lean.py"):
+        tr = os.path.join(VERIF, "tools", tool)
+        if not os.path.exists(tr):
+            continue
+        rc, out = sh([sys.executable, tr, "--repo", REPO, "--out", os.path.join(LEAN, "Cpl", "Gen")])
+        ok = ok and rc == 0
+        msgs.append(out.strip())
+    return ok, " | ".join(msgs)
+
+
+def prop_modules(prop):
+    """Lean modules whose theorems are the property's obligations: Properties/Cxx (+ Ties/Cxx: translated source = model)."""
+    mods = ["Cpl.Properties." + prop]
+    if os.path.exists(os.path.join(LEAN, "Cpl", "Ties", prop + ".lean")):
+        mods.append("Cpl.Ties." + prop)
+    return mods
 
 
 def lake_build(targets):
@@ -93,8 +107,16 @@ def lake_build(targets):
 
 
 def property_theorems(prop):
-    """Names of the (non-private) theorems in Properties/<prop>.lean, in file order."""
-    path = os.path.join(LEAN, "Cpl", "Properties", prop + ".lean")
+    """Names of the (non-private) theorems in the property's obligation modules, in file order."""
+    names, srcs = [], []
+    for m in prop_modules(prop):
+        n, s_ = module_theorems(os.path.join(LEAN, *m.split(".")) + ".lean")
+        names += n
+        srcs.append(s_)
+    return names, "\n".join(srcs)
+
+
+def module_theorems(path):
     src = open(path).read()
     # strip block comments and line comments
     src_nc = re.sub(r"/-.*?-/", lambda m: "\n" * m.group(0).count("\n"), src, flags=re.S)
@@ -138,7 +160,9 @@ def import_closure(module):
 def forbidden_tokens(prop):
     """grep the property's import closure (and the driver's) for proof escapes outside comments."""
     hits = []
-    files = dict(import_closure("Cpl.Properties." + prop))
+    files = {}
+    for m in prop_modules(prop):
+        files.update(import_closure(m))
     files.update(import_closure("Main"))
     for p in sorted(set(files.values())):
         src = open(p).read()
@@ -157,7 +181,8 @@ def audit(prop):
     os.makedirs(os.path.join(LEAN, ".audit"), exist_ok=True)
     apath = os.path.join(LEAN, ".audit", prop + ".lean")
     with open(apath, "w") as f:
-        f.write("import Cpl.Properties.%s\n" % prop)
+        for m in prop_modules(prop):
+            f.write("import %s\n" % m)
         for n in names:
             f.write("#print axioms %s\n" % n)
     rc, out = sh(["lake", "env", "lean", apath], cwd=LEAN, timeout=1200)
@@ -212,16 +237,41 @@ def _worker_init(modname):
     _MOD = importlib.import_module(modname)
 
 
+CASE_TIMEOUT = int(os.environ.get("VERIF_CASE_TIMEOUT", "120"))
+
+
+class CaseTimeout(BaseException):
+    pass
+
+
+def _alarm(signum, frame):
+    raise CaseTimeout()
+
+
 def _worker_eval(case):
+    """Implementation answer + direct oracle for one case, each under a wall-clock limit: a case on which the
+    implementation does not come back (e.g. a stopping rule that never stops) is a failing input, not a hang."""
+    import signal
     t0 = time.time()
+    signal.signal(signal.SIGALRM, _alarm)
     try:
+        signal.alarm(CASE_TIMEOUT)
         ans = _MOD.impl(case)
+    except CaseTimeout:
+        ans = "harness-exc timeout: implementation did not return within %d s" % CASE_TIMEOUT
     except Exception as e:  # harness-level crash while running the implementation
         ans = "harness-exc " + type(e).__name__ + ": " + str(e)[:200] + " | " + traceback.format_exc()[-600:].replace("\n", " / ")
+    finally:
+        signal.alarm(0)
     try:
+        signal.alarm(CASE_TIMEOUT)
         orc = _MOD.oracle(case)
+    except CaseTimeout:
+        orc = "oracle-exc timeout: the property oracle did not return within %d s on this input" % CASE_TIMEOUT
     except Exception as e:
         orc = "oracle-exc " + type(e).__name__ + ": " + str(e)[:200] + " | " + traceback.format_exc()[-600:].replace("\n", " / ")
+    finally:
+        signal.alarm(0)
     return ans, orc, time.time() - t0
 
 
@@ -319,10 +369,10 @@ def run_property(prop, tier, seed, replay=None):
         broken.append("translator: " + tr_msg[-500:])
 
     # 2. proofs
-    b_ok, b_log = lake_build(["Cpl.Properties." + prop, "driver"])
+    b_ok, b_log = lake_build(prop_modules(prop) + ["driver"])
     aud = dict(obligations=0, discharged=0, axioms=[], theorems=[], failed=[], log="")
     if not b_ok:
-        broken.append("lake build Cpl.Properties.%s failed: %s" % (prop, b_log[-1500:]))
+        broken.append("lake build %s failed: %s" % (" ".join(prop_modules(prop)), b_log[-1500:]))
         # the driver may still be buildable (hand model intact, Gen-dependent proof broken)
         d_ok, d_log = lake_build(["driver"])
         if not d_ok:
@@ -339,7 +389,7 @@ def run_property(prop, tier, seed, replay=None):
         if hits:
             broken.append("forbidden tokens: " + "; ".join(hits[:5]))
         if tier == "thorough" and os.environ.get("VERIF_LEANCHECKER", "1") == "1":
-            mods = sorted(import_closure("Cpl.Properties." + prop).keys())
+            mods = sorted(set(k for m in prop_modules(prop) for k in import_closure(m).keys()))
             rc, out = sh(["lake", "env", "leanchecker"] + mods, cwd=LEAN, timeout=3000)
             ctx.extra_coverage["leanchecker"] = "rc=%d on %d modules (%s) %s" % (rc, len(mods), ", ".join(mods), out.strip()[-200:])
             if rc != 0:
@@ -507,7 +557,7 @@ def run_property(prop, tier, seed, replay=None):
     trusted += getattr(mod, "TRUSTED", [])
     coverage = dict(
         obligations=aud["obligations"], discharged=aud["discharged"],
-        checker_cmd="cd lean && lake build Cpl.Properties.%s driver && lake env lean .audit/%s.lean  (#print axioms for every property theorem)" % (prop, prop),
+        checker_cmd="cd lean && lake build %s driver && lake env lean .audit/%s.lean  (#print axioms for every property theorem)" % (" ".join(prop_modules(prop)), prop),
         trusted_base=trusted,
         theorems=aud["theorems"],
         undischarged=aud["failed"],
